@@ -410,6 +410,42 @@ pub fn run(args: &Args) {
                 }
             }
         }
+        // every SD2 length byte 0..255 with a structured body: consistent header with valid / damaged
+        // trailer, inconsistent LEr, wrong repeated delimiter; prefixes around the interesting lengths
+        for le in 0..=255usize {
+            let body_len = le.max(3);
+            let mut body: Vec<u8> = (0..body_len).map(|_| rng.gen()).collect();
+            body[0] &= 0x7f;
+            body[1] &= 0x7f;
+            body[2] = [0x6Du8, 0x08, 0x49, 0x00][rng.gen_range(0..4)];
+            let cs = body.iter().take(le.min(body.len())).fold(0u8, |a, b| a.wrapping_add(*b));
+            let mut f = vec![0x68, le as u8, le as u8, 0x68];
+            f.extend_from_slice(&body[..le.min(body.len())]);
+            f.push(cs);
+            f.push(0x16);
+            let n = f.len();
+            let mut ks: Vec<usize> = (0..=8.min(n)).collect();
+            for k in [n.saturating_sub(2), n.saturating_sub(1), n] {
+                if !ks.contains(&k) {
+                    ks.push(k);
+                }
+            }
+            ks.sort();
+            chain(&mut log, &f, ks.clone().into_iter());
+            // variants: LEr off by one, wrong repeated SD2, bad checksum, bad ED, trailing bytes
+            let variant = le % 5;
+            let mut g = f.clone();
+            match variant {
+                0 => g[2] = g[2].wrapping_add(1),
+                1 => g[3] = 0x10,
+                2 => { let i = n - 2; g[i] = g[i].wrapping_add(1); }
+                3 => { let i = n - 1; g[i] = 0x17; }
+                _ => g.extend_from_slice(&[0xE5, 0x00]),
+            }
+            let gn = g.len();
+            let ks2: Vec<usize> = ks.iter().cloned().filter(|k| *k <= gn).chain(std::iter::once(gn)).collect();
+            chain(&mut log, &g, ks2.into_iter());
+        }
         // prefix chains of valid frames followed by trailing bytes
         let nchains = if thorough { 600 } else { 40 };
         for i in 0..nchains {
